@@ -48,11 +48,15 @@ func (f *vWalMemFile) Write(p []byte) (int, error) { f.buf = append(f.buf, p...)
 func (f *vWalMemFile) Sync() error                 { return nil }
 func (f *vWalMemFile) Close() error                { return nil }
 
-// payload of record k of the log with number lognum: never zero, never >= 128
+// payload of record k of the log with number lognum: never zero, never >= 128;
+// logs with odd and even numbers use disjoint byte values, so that a byte of an
+// older (even-numbered) log never equals the byte of the new (odd-numbered) log
+// it replaces.
 func vWalPayload(lognum, k, n int) []byte {
 	p := make([]byte, n)
+	lo := 1 + 60*(lognum%2)
 	for j := range p {
-		p[j] = byte(1 + (k*7+j*13+lognum*29+(j>>8)*3)%120)
+		p[j] = byte(lo + (k*7+j*13+lognum*29+(j>>8)*3)%60)
 	}
 	return p
 }
